@@ -31,6 +31,7 @@ type scenario struct {
 	topics     int
 	closer     string // "client", "queue", "queue2" (two concurrent queue closes), "clientqueue", "none"
 	free       bool
+	stalled    bool // the subscriber of topic A never takes a message (requests stay parked in its buffer until it is closed)
 }
 
 func (sc scenario) body(o *obs) func() {
@@ -43,6 +44,9 @@ func (sc scenario) body(o *obs) func() {
 			rc := q.Client()
 			rc.Sub(topic)
 			rclients = append(rclients, rc)
+			if sc.stalled && t == 0 {
+				continue
+			}
 			vrt.Go(func() { // responder: a module's receive loop (a daemon: it ends only when its client is closed)
 				for {
 					msg, ok := vrt.Recv2(rc.Recv())
@@ -66,9 +70,16 @@ func (sc scenario) body(o *obs) func() {
 					vrt.Own(func() { wasClosed = o.closed })
 					closedBefore := wasClosed && (sc.closer != "client" || topic == "A")
 					msg := c.NewMessage(topic, int64(100+i), payload)
+					// a topic whose subscriber is never closed (and the queue stays open) must serve every request
+					live := sc.closer == "none" || (sc.closer == "client" && topic != "A")
 					err := c.Send(msg, true)
 					if err != nil {
 						vrt.Own(func() { o.outcomes["send-error"] = true })
+						if live {
+							vrt.Own(func() {
+								o.bad = append(o.bad, fmt.Sprintf("request %s to the live topic %s could not be sent: %v", payload, topic, err))
+							})
+						}
 						continue
 					}
 					if closedBefore {
@@ -78,10 +89,17 @@ func (sc scenario) body(o *obs) func() {
 					resp, err := c.Wait(msg)
 					if err != nil {
 						vrt.Own(func() { o.outcomes["wait-error"] = true })
+						if live {
+							vrt.Own(func() {
+								o.bad = append(o.bad, fmt.Sprintf("request %s to the live topic %s was answered with an error: %v", payload, topic, err))
+							})
+						}
 						continue
 					}
 					if closedBefore {
-						vrt.Own(func() { o.bad = append(o.bad, fmt.Sprintf("request %s was sent after the close had returned and still got a reply", payload)) })
+						vrt.Own(func() {
+							o.bad = append(o.bad, fmt.Sprintf("request %s was sent after the close had returned and still got a reply", payload))
+						})
 					}
 					if got := fmt.Sprint(resp.GetData()); got != "echo:"+payload {
 						vrt.Own(func() { o.bad = append(o.bad, fmt.Sprintf("request %s received reply %q", payload, got)) })
@@ -150,12 +168,13 @@ func main() {
 	r.StateCounter = "tree_nodes"
 	r.DistinctSet = "outcomes"
 	scs := []scenario{
-		{"S1-clientclose", 2, 2, 1, "client", true},
-		{"S2-queueclose", 2, 2, 1, "queue", true},
-		{"S3-doubleclose", 1, 1, 1, "queue2", true},
-		{"S4-twotopics", 2, 2, 2, "client", true},
-		{"S5-client+queue", 1, 2, 1, "clientqueue", true},
-		{"S6-noclose", 2, 2, 1, "none", true},
+		{"S1-clientclose", 2, 2, 1, "client", true, false},
+		{"S2-queueclose", 2, 2, 1, "queue", true, false},
+		{"S3-doubleclose", 1, 1, 1, "queue2", true, false},
+		{"S4-twotopics", 2, 2, 2, "client", true, false},
+		{"S5-client+queue", 1, 2, 1, "clientqueue", true, false},
+		{"S6-noclose", 2, 2, 1, "none", true, false},
+		{"S7-stalled-subscriber-closed", 2, 2, 2, "client", true, true},
 	}
 	bound := r.Pick(2, 3)
 	mk := func(sc scenario) *vx.Sched {
